@@ -26,7 +26,7 @@ DECOMP_PATT = r"\.txt\.(bz2|gz|Z)$"          # the restrictive example of the sh
 PATT_CONFIG = dict(FULL_CONFIG)
 PATT_CONFIG["handlers.file.CompressedFileHandler"] = dict(FULL_CONFIG["handlers.file.CompressedFileHandler"],
                                                           decompresspatt=DECOMP_PATT)
-NAMED_CONFIGS = {"default": None, "full": FULL_CONFIG, "fullpatt": PATT_CONFIG, "live": None}
+NAMED_CONFIGS = {"default": None, "full": FULL_CONFIG, "fullpatt": PATT_CONFIG, "live": None, "livepatt": PATT_CONFIG}
 
 WML_HEAD = ('<?xml version="1.0"?>\n<!DOCTYPE wml PUBLIC "-//WAPFORUM//DTD WML 1.1//EN"\n'
             '"http://www.wapforum.org/DTD/wml_1.1.xml">\n<wml>\n'
@@ -70,7 +70,35 @@ def content_files(rng, tier):
     ]
     for i in range(4 if tier == "quick" else 16):
         files.append((f"t/r{i}.txt", text_of_size(rng, rng.randrange(1, 700))))
+    files += lookalikes(rng)
     return files
+
+
+def lookalikes(rng):
+    """Documents whose content (or name) LOOKS like something a more specific handler wants, without
+    meeting that handler's documented acceptance rule: each is an ordinary stored document."""
+    tail = text_of_size(rng, 200)
+    return [
+        ("k/desk.txt", b"From the desk of the editor\n\nDear reader,\n" + tail),
+        ("k/hours.txt", b"From Monday to Friday we are open 9:00-17:00\nFrom Saturday on, closed\n"),
+        ("k/from.bin", b"From \x00\x01\x02\xff\xfe binary \x00" + rand_bytes(rng, 300)),
+        ("k/fromnl", b"From \n"),
+        ("k/inbox.mbox", b"not a mailbox, just notes\nFrom here on it is text\n"),
+        ("k/nomail.mbox", b"From: alice@example.com\nSubject: a header block is not an mbox From_ line\n\nbody\n"),
+        ("k/notitle.html", b"<html><body><p>no title element here</p></body></html>\n"),
+        ("k/halftitle.html", b"<html><head><title>never closed\n<p>text</p>\n"),
+        ("k/htmlish.txt", b"<html><head><title>Titled text</title></head></html>\n"),
+        ("k/pk.bin", b"PK\x03\x04" + rand_bytes(rng, 120)),
+        ("k/pk.txt", b"PK\x03\x04 is how a ZIP starts\n"),
+        ("k/shebang.txt", b"#!/bin/sh\necho this must not run\n"),
+        ("k/shebang", b"#!/bin/sh\necho nor this\n"),
+        ("k/maplike.txt", b"iWelcome\tfake\t(NULL)\t0\r\n0A file\t/a.txt\n1dir\tsub\n"),
+        ("k/linkslike.txt", b"Name=Link\nType=1\nPath=/elsewhere\nHost=example.org\nPort=70\n"),
+        ("k/tallike.txt", b'<html><body tal:content="selector">x</body></html>\n'),
+        ("k/gzlike.txt", b"\x1f\x8b\x08 looks like gzip magic\n"),
+        ("k/gophermap.txt", b"0entry\t/x\n"),
+        ("k/cache.pygopherd.dir.txt", b"\x80\x04\x95 not a pickle\n"),
+    ]
 
 
 NAMED = ["sp ace.txt", "q?.txt", "a|b.txt", "per%cent.txt", "per%41.txt", "#frag.txt", "am&p.txt", "semi;colon.txt",
@@ -416,14 +444,15 @@ def run(tier):
             out.append((proto, "HEAD", data.replace(b"GET ", b"HEAD ", 1), tls))
         return out
 
-    plan = {"default": [], "full": [], "fullpatt": [], "live": []}   # (path, data, special, proto, method, request bytes, tls)
+    plan = {"default": [], "full": [], "fullpatt": [], "live": [], "livepatt": []}   # (path, data, special, proto, method, request bytes, tls)
     for p, d in files:
         for q in reqs_for(p, GET_PROTOS, HEAD_PROTOS):
             plan["default"].append((p, d, None) + q)
     for q in reqs_for("big/big.bin", ["gopher", "gopherplus", "http", "gemini", "spartan"], []):
         plan["default"].append(("big/big.bin", big, None) + q)
     full_files = [(p, d) for p, d in files if p in ("s/b0.bin", "s/b4096.bin", "s/b4097.bin", "s/b12289.bin", "s/t4097.txt",
-                                                    "t/inv.txt", "n/page.html", "n/sp ace.txt", "n/q?.txt")]
+                                                    "t/inv.txt", "n/page.html", "n/sp ace.txt", "n/q?.txt")
+                  or p.startswith("k/")]
     for p, d in full_files:
         for q in reqs_for(p, GET_PROTOS, HEAD_PROTOS):
             plan["full"].append((p, d, None) + q)
@@ -440,6 +469,10 @@ def run(tier):
         applies = sp[0] == "tal" or re.search(DECOMP_PATT, sel_of(p)) is not None
         for q in reqs_for(p, GET_PROTOS, HEAD_PROTOS):
             plan["fullpatt"].append((p, d, sp if applies else None) + q)
+        # ... and through the real server on a real socket (a decompressor writes to the descriptor itself)
+        if sp[0] == "gz":
+            for q in reqs_for(p, GET_PROTOS, ["http"]):
+                plan["livepatt"].append((p, d, sp if applies else None) + q)
 
     # the real ThreadingTCPServer on a socket, TLS requests through a real TLS client: what the
     # in-process transport cannot show (anything that depends on the descriptor under a TLS stream)
@@ -451,7 +484,7 @@ def run(tier):
     for q in reqs_for("big/big.bin", ["sgopher", "sgopherplus", "https", "gemini"], []):
         plan["live"].append(("big/big.bin", big, None) + q)
     CONFIGS = (("default", None, "c04_world"), ("full", FULL_CONFIG, "c04_world"), ("fullpatt", PATT_CONFIG, "c04_world"),
-               ("live", None, "c04_live"))
+               ("live", None, "c04_live"), ("livepatt", PATT_CONFIG, "c04_live"))
     jobs = []
     for cfgname, cfg, op in CONFIGS:
         jobs.append({"op": op, "tree": tree, "config": cfg,
@@ -659,7 +692,7 @@ def run(tier):
         parts.append((key[0],) + file_part(fi, key, recs))
     bundles = []
     bundle_recs = []
-    for cfgname in ("default", "full", "fullpatt", "live"):
+    for cfgname in ("default", "full", "fullpatt", "live", "livepatt"):
         cur = None
         for c, defs, weight, groups in sorted([p for p in parts if p[0] == cfgname], key=lambda p: -p[2]):
             if cur is None or cur["w"] + weight > 70000:
@@ -672,7 +705,7 @@ def run(tier):
     jobs_k = []
     for bi, (cfgname, cur) in enumerate(bundles):
         gs = [g for g in ("doc", "wapt", "wapr") if cur["groups"][g]]
-        jobs_k.append({"name": f"k_e2e_{bi}", "imports": IMPORTS, "local_modules": ["C04T_full" if cfgname in ("full", "fullpatt") else "C04T_default"],
+        jobs_k.append({"name": f"k_e2e_{bi}", "imports": IMPORTS, "local_modules": ["C04T_full" if cfgname in ("full", "fullpatt", "livepatt") else "C04T_default"],
                        "pre": "".join(cur["defs"]), "evals": [(CHK[g], [c for c, _ in cur["groups"][g]]) for g in gs]})
         bundle_recs.append([[r for _, r in cur["groups"][g]] for g in gs] + [gs])
     bigpre = coq_def("blk", blk) + "Definition d_big : list N := big_doc blk %d %d.\n" % (BIG_REPS, BIG_TAIL)
@@ -753,7 +786,7 @@ def replay(path):
         print("replay: not a replayable document case (see the file for the input)")
         return 2
     cfg = NAMED_CONFIGS.get(rep["world"]["config"])
-    res = impl_run([{"op": "c04_live" if rep["world"]["config"] == "live" else "c04_world", "tree": rep["world"]["tree"], "config": cfg,
+    res = impl_run([{"op": "c04_live" if rep["world"]["config"].startswith("live") else "c04_world", "tree": rep["world"]["tree"], "config": cfg,
                      "requests": [{"data": rep["request_latin1"], "tls": rep["tls"]}]}])
     if not res[0]["ok"]:
         print(res[0]["err"])
